@@ -62,6 +62,7 @@ class Oracle(object):
     if h is None or h.est is None:
       return
     ts = tuple_size(h.name)
+    self.threshold_model(m, op, ev, h)
     if kind == "set_threshold" and ev.get("outcome") not in (None, "skip"):
       if ev["outcome"] == "ok":
         want = float(live["value"])
@@ -107,6 +108,27 @@ class Oracle(object):
     elif kind == "query" and ev.get("outcome") == "ok" and ts and h.defined and \
         op["method"] in ("predict", "decision_function", "score"):
       self.check_query(m, op, ev, live, h, ts)
+
+  def threshold_model(self, m, op, ev, h_op):
+    """Reference model of the threshold state: threshold_ of an estimator only
+    changes through a writer (fit, set_threshold, calibrate_threshold, sweep)
+    performed on *that* estimator; it survives queries, failed writers, pickle
+    restarts and whatever happens to other estimators."""
+    if not hasattr(self, "thr"):
+      self.thr = {}
+    writers = ("fit", "set_threshold", "calibrate", "sweep", "set_params", "new", "clone")
+    for hid, hh in m.handles.items():
+      if hh.est is None or not hasattr(hh.est, "set_threshold"):
+        continue
+      cur = vars(hh.est).get("threshold_", getattr(hh.est, "threshold_", None))
+      cur = None if cur is None else float(cur).hex()
+      is_writer = op["op"] in writers and hid in (op.get("h"), op.get("h2"))
+      if not is_writer and hid in self.thr and self.thr[hid] != cur:
+        raise Violation("threshold_model", "changed_without_writer,op=%s" % op["op"],
+                        "threshold_ of %s (handle %s) went from %s to %s during %s on handle %r"
+                        % (hh.name, hid, self.thr[hid], cur, op["op"], op.get("h")))
+      self.thr[hid] = cur
+    m.cov["threshold_model_checks"] += 1
 
   def check_query(self, m, op, ev, live, h, ts):
     est = h.est
